@@ -54,6 +54,62 @@ CLAIMS = {
         "ASan+UBSan+LSan with poisoned red zones around scratch chunks. Memory safety of the 43k lines of C is observed on the explored "
         "inputs, not proved.",
    technique="Lean 4 invariant/refinement proof of the allocator model + exact replay on the real allocator + sanitizer-observed op sweep", design="5/C11"),
+ "C05": dict(
+   text="Proof: the certificate checker is sound and complete w.r.t. its declarative reading (checkGraphCert = ok iff forest/coforest partition the "
+        "edge set, the forest is spanning, and every entry M[i][j] is 1 exactly when forest edge i lies on the duplicate-free tree walk between "
+        "the ends of coforest edge j: treePath_sound, cycleMatrix_spec, cert_entries); the brute-force tree search returns only trees in which "
+        "every column support is a path. Tie: CMRgraphicTestMatrix/Transpose on every 0/1 matrix up to 4x4 and on random/graph-generated "
+        "instances up to 120 edges; every yes is decided by the returned certificate, every no (rows<=5) by the search. Completeness of the "
+        "search oracle w.r.t. the declarative notion is not proved (a 'no' of the oracle against a 'yes' with valid certificate is decided by the certificate).",
+   technique="Lean 4 soundness/completeness of the graph-certificate checker + certificate validation of every yes, exhaustive small-domain oracle for no", design="5/C05"),
+ "C06": dict(
+   text="Proof: as C05 for signed=true: an accepted certificate means M[i][j] = +1/-1/0 according to forward/backward/absent traversal of "
+        "tree arc i (after arc reversals) on the tree walk of coforest arc j; network search soundness. Tie: CMRnetworkTestMatrix/Transpose on "
+        "every {-1,0,1} matrix up to 3x3, random signings, digraph instances with reversals and sign corruptions; support-graphicness flag "
+        "and returned violators are checked against the oracles.",
+   technique="Lean 4 certificate-checker theorems (signed) + certificate validation / small-domain oracle", design="5/C06"),
+ "C14": dict(
+   text="Proof: cycleMatrix has the documented shape (rows in forest order, columns in coforest order) and entries (walk characterisation), its "
+        "transpose is entrywise the transpose, a certificate determines the matrix (cert_unique), and constructed matrices are accepted by the "
+        "certificate checker (roundtrip). Tie: CMRgraphicComputeMatrix/CMRnetworkComputeMatrix on every multigraph with <=3 nodes and <=4 edges "
+        "x every edge subset as forest x shuffled orders/orientations: matrix, transpose and forest flag compared exactly; random graphs up to "
+        "120 edges; constructed matrices sent through recognition.",
+   technique="Lean 4 theorems about the fundamental-cycle-matrix model + exhaustive small-graph exact correspondence", design="5/C14"),
+ "C08": dict(
+   text="Proof: declarative SP reductions (Removable/Reaches/IsSP); every reduction/list the judge accepts is a genuine reduction sequence; "
+        "spSearch decides IsSP; CONFLUENCE (sp_confluent): any maximal reduction sequence ends in the empty matrix iff the matrix is "
+        "series-parallel (via signed embeddings), hence greedy = exhaustive; M_2, M_3' and cycle violators are irreducible and certify "
+        "non-SP-ness of any matrix containing them. Tie: CMRspTest*/CMRspDecompose* on exhaustive small domains, all 32 output subsets, "
+        "maxNumReductions, grown instances, and a build with the hash range forced to 7.",
+   technique="Lean 4 proof of confluence and checker soundness for SP reductions + exhaustive/output-subset/forced-collision correspondence", design="5/C08"),
+ "C09": dict(
+   text="Partial. Proof: a Camion violator accepted by the judge (square, two nonzeros per line, det +-2) refutes TU; a TU matrix makes its "
+        "support regular, and if a re-signing with the same support is TU the support is regular. Camion's theorem itself (regular support: "
+        "TU iff Camion-signed) is classical and only tested. The signing algorithm is not modelled: the contract relations (support kept, "
+        "output passes the test, idempotent, test = signing leaves the matrix unchanged, TU => signed, regular support => output TU) are "
+        "checked by correspondence on every {-1,0,1} matrix up to 3x3/2x4/4x2 and on random signings up to 6x6 with the proved oracles.",
+   technique="Lean 4 violator/regularity theorems + relational correspondence with proved oracles", design="5/C09"),
+ "C16": dict(
+   text="Proof: the exact-arithmetic model of the documented definition: rankQ, column bases, gcd of basis minors (divides every minor and is "
+        "the greatest such), Cramer solution with integrality; every nonsingular square matrix is equimodular with k=|det| (general n). Tie: "
+        "CMRequimodularTest/Strong and the unimodular variants on exhaustive small integer domains, requested k, near-overflow entries (only "
+        "the exact answer or err:OVERFLOW admissible). Basis independence is the documentation's claim and is not proved: the judge accepts "
+        "the answer of any column basis.",
+   technique="Lean 4 theorems about the exact-arithmetic definition + exhaustive small-domain correspondence", design="5/C16"),
+ "C17": dict(
+   text="Proof: isBalanced unfolds to the definition over all increasing index lists; non-ternary => not balanced; the hole predicate is "
+        "permutation invariant so a violator in ANY order refutes balancedness; transposition invariance. Tie: CMRbalancedTest on every "
+        "{-1,0,1} matrix up to 3x3/2x4/4x2 with both presets of the verdict variable, both implemented algorithms, SP preprocessing on/off, "
+        "non-ternary inputs, and the unimplemented graph algorithm (must be an error status).",
+   technique="Lean 4 theorems about the balancedness definition and violator soundness + exhaustive correspondence", design="5/C17"),
+ "C20": dict(
+   text="Proof: Csr.consistent unfolds to the property's clauses; the canonical sparse form of every dense matrix is consistent and round-trips "
+        "(toDense (ofDense M) = M); consistent sparse matrices are canonical (toDense injective); algebraic laws of transpose/support/slice at "
+        "the dense level. Tie: every matrix returned by any op of any check is dumped as raw CSR arrays and checked; utilities compared exactly; "
+        "writers' bytes parsed by the Lean format model and by the library; malformed token streams and all byte strings over a small "
+        "alphabet. The text-format parsers are modelled (Cmr/Text.lean) but parse(print A) = A is not yet a theorem: that clause rests on the "
+        "correspondence.",
+   technique="Lean 4 theorems about the CSR invariant and canonical form + raw-array consistency check on every returned matrix + text-format correspondence", design="5/C20"),
 }
 
 def main():
